@@ -29,6 +29,7 @@ import (
 	"k8s.io/apimachinery/pkg/runtime"
 	"k8s.io/apimachinery/pkg/types"
 	ctrl "sigs.k8s.io/controller-runtime"
+	"sigs.k8s.io/controller-runtime/pkg/client"
 
 	corev1alpha1 "package-operator.run/apis/core/v1alpha1"
 	"package-operator.run/internal/constants"
@@ -562,9 +563,121 @@ func phaseKey(o aOID) storeKey {
 
 // ---- the controllers
 
+// Two clusters. With the multi-cluster constructors ("annot") the run uses a management cluster (ObjectSets,
+// (Cluster)ObjectSetPhases, the Namespaces the ObjectSet controller consults, and the members of phases the
+// ObjectSet controller reconciles in-process) and a target cluster (the members of delegated phases): two
+// recording servers. The four phase controllers are built through their real constructors with the argument roles
+// of cmd/remote-phase-manager (dynamic cache and uncached reader = target, client = management, targetWriter =
+// target) and cmd/package-operator-manager (everything = the one cluster), so a swapped client is inside the run.
+// Both servers draw resourceVersions and uids from ONE counter and append to ONE request log: the abstraction stays
+// the one logical world of ObjectSet.v (management objects and delegated members are disjoint keys).
+type shared struct {
+	rv, uid int64
+	log     []*Request
+}
+
+type cluster struct {
+	*Store
+	sh *shared
+}
+
+func (c *cluster) pre() int { c.Store.SetCounters(c.sh.rv, c.sh.uid); return len(c.Store.Log) }
+func (c *cluster) post(n int) {
+	c.sh.rv, c.sh.uid = c.Store.Counters()
+	if n <= len(c.Store.Log) {
+		c.sh.log = append(c.sh.log, c.Store.Log[n:]...)
+	}
+}
+
+func (c *cluster) Get(ctx context.Context, key client.ObjectKey, obj client.Object, opts ...client.GetOption) error {
+	n := c.pre()
+	defer c.post(n)
+	return c.Store.Get(ctx, key, obj, opts...)
+}
+func (c *cluster) List(ctx context.Context, list client.ObjectList, opts ...client.ListOption) error {
+	n := c.pre()
+	defer c.post(n)
+	return c.Store.List(ctx, list, opts...)
+}
+func (c *cluster) Create(ctx context.Context, obj client.Object, opts ...client.CreateOption) error {
+	n := c.pre()
+	defer c.post(n)
+	return c.Store.Create(ctx, obj, opts...)
+}
+func (c *cluster) Delete(ctx context.Context, obj client.Object, opts ...client.DeleteOption) error {
+	n := c.pre()
+	defer c.post(n)
+	return c.Store.Delete(ctx, obj, opts...)
+}
+func (c *cluster) Update(ctx context.Context, obj client.Object, opts ...client.UpdateOption) error {
+	n := c.pre()
+	defer c.post(n)
+	return c.Store.Update(ctx, obj, opts...)
+}
+func (c *cluster) Patch(ctx context.Context, obj client.Object, patch client.Patch, opts ...client.PatchOption) error {
+	n := c.pre()
+	defer c.post(n)
+	return c.Store.Patch(ctx, obj, patch, opts...)
+}
+
+type clusterStatus struct{ c *cluster }
+
+func (c *cluster) Status() client.SubResourceWriter { return &clusterStatus{c} }
+func (w *clusterStatus) Create(ctx context.Context, obj client.Object, sub client.Object, opts ...client.SubResourceCreateOption) error {
+	return w.c.Store.Status().Create(ctx, obj, sub, opts...)
+}
+func (w *clusterStatus) Update(ctx context.Context, obj client.Object, opts ...client.SubResourceUpdateOption) error {
+	n := w.c.pre()
+	defer w.c.post(n)
+	return w.c.Store.Status().Update(ctx, obj, opts...)
+}
+func (w *clusterStatus) Patch(ctx context.Context, obj client.Object, patch client.Patch, opts ...client.SubResourcePatchOption) error {
+	return w.c.Store.Status().Patch(ctx, obj, patch, opts...)
+}
+
+var _ client.Client = (*cluster)(nil)
+
+type world2 struct {
+	mg, tg *cluster // the same cluster in single-cluster runs
+	sh     *shared
+}
+
+func newWorld2(scheme *runtime.Scheme, two bool) *world2 {
+	sh := &shared{rv: 1, uid: 1}
+	w := &world2{sh: sh}
+	w.mg = &cluster{Store: NewStore(scheme, newMapper()), sh: sh}
+	w.tg = w.mg
+	if two {
+		w.tg = &cluster{Store: NewStore(scheme, newMapper()), sh: sh}
+	}
+	return w
+}
+
+func (w *world2) stores() []*Store {
+	if w.mg == w.tg {
+		return []*Store{w.mg.Store}
+	}
+	return []*Store{w.mg.Store, w.tg.Store}
+}
+func (w *world2) Counters() (int64, int64) { return w.sh.rv, w.sh.uid }
+func (w *world2) ResetPass() {
+	for _, s := range w.stores() {
+		s.ResetPass()
+	}
+	w.sh.log = nil
+}
+
+// memberStore: where a member object lives. In a two-cluster run: on the target cluster iff its key is listed by a
+// delegated phase of some ObjectSet of the scenario or by some phase object.
+func (w *world2) memberStore(k aKey, delegatedKeys map[aKey]bool) *Store {
+	if w.mg != w.tg && delegatedKeys[k] {
+		return w.tg.Store
+	}
+	return w.mg.Store
+}
+
 type controllerSet struct {
-	s        *Store
-	cache    *fakeCache
+	w        *world2
 	set      *objectsets.GenericObjectSetController
 	cset     *objectsets.GenericObjectSetController
 	phase    *objectsetphases.GenericObjectSetPhaseController
@@ -572,17 +685,26 @@ type controllerSet struct {
 	strategy string
 }
 
-func newControllerSet(s *Store, scheme *runtime.Scheme, strategy string) *controllerSet {
-	cache := &fakeCache{s: s}
-	cs := &controllerSet{s: s, cache: cache, strategy: strategy}
-	cs.set = objectsets.NewObjectSetController(s, logr.Discard(), scheme, cache, s, nil, s.RESTMapper())
-	cs.cset = objectsets.NewClusterObjectSetController(s, logr.Discard(), scheme, cache, s, nil, s.RESTMapper())
+func newControllerSet(w *world2, scheme *runtime.Scheme, strategy string) *controllerSet {
+	cs := &controllerSet{w: w, strategy: strategy}
+	mgCache := &fakeCache{s: w.mg.Store}
+	// (Cluster)ObjectSet controllers: cmd/package-operator-manager: client, dynamic cache, uncached client of their own cluster
+	cs.set = objectsets.NewObjectSetController(w.mg, logr.Discard(), scheme, mgCache, w.mg, nil, w.mg.RESTMapper())
+	cs.cset = objectsets.NewClusterObjectSetController(w.mg, logr.Discard(), scheme, mgCache, w.mg, nil, w.mg.RESTMapper())
 	if strategy == "annot" {
-		cs.phase = objectsetphases.NewMultiClusterObjectSetPhaseController(logr.Discard(), scheme, cache, s, "default", s, s, s.RESTMapper())
-		cs.cphase = objectsetphases.NewMultiClusterClusterObjectSetPhaseController(logr.Discard(), scheme, cache, s, "default", s, s, s.RESTMapper())
+		// cmd/remote-phase-manager/main.go:211-227: (log, scheme, dc (target), uncachedTargetClient, class,
+		// managementClusterClient, targetClient, targetMapper)
+		tgCache := &fakeCache{s: w.tg.Store}
+		cs.phase = objectsetphases.NewMultiClusterObjectSetPhaseController(
+			logr.Discard(), scheme, tgCache, w.tg, "default", w.mg, w.tg, w.tg.RESTMapper())
+		cs.cphase = objectsetphases.NewMultiClusterClusterObjectSetPhaseController(
+			logr.Discard(), scheme, tgCache, w.tg, "default", w.mg, w.tg, w.tg.RESTMapper())
 	} else {
-		cs.phase = objectsetphases.NewSameClusterObjectSetPhaseController(logr.Discard(), scheme, cache, s, "default", s, s.RESTMapper())
-		cs.cphase = objectsetphases.NewSameClusterClusterObjectSetPhaseController(logr.Discard(), scheme, cache, s, "default", s, s.RESTMapper())
+		// cmd/package-operator-manager/components/objectsetphase.go: (log, scheme, dc, uncachedClient, class, client, restMapper)
+		cs.phase = objectsetphases.NewSameClusterObjectSetPhaseController(
+			logr.Discard(), scheme, mgCache, w.mg, "default", w.mg, w.mg.RESTMapper())
+		cs.cphase = objectsetphases.NewSameClusterClusterObjectSetPhaseController(
+			logr.Discard(), scheme, mgCache, w.mg, "default", w.mg, w.mg.RESTMapper())
 	}
 	return cs
 }
@@ -603,13 +725,13 @@ type aStep struct {
 	// garbage collection after an out-of-band deletion: phase objects and member objects the environment removed
 	EnvPhasesGone []aOID `json:"env_phases_gone,omitempty"`
 	EnvKeysGone   []aKey `json:"env_keys_gone,omitempty"`
-	NextRV  int64  `json:"next_rv"`
-	NextUID int64  `json:"next_uid"`
+	NextRV        int64  `json:"next_rv"`
+	NextUID       int64  `json:"next_uid"`
 }
 
-func passResult(s *Store, res ctrl.Result, err error) (string, string) {
+func passResult(log []*Request, res ctrl.Result, err error) (string, string) {
 	nonRead := 0
-	for _, r := range s.Log {
+	for _, r := range log {
 		if !r.DryRun && r.Verb != "get" && r.Verb != "list" {
 			nonRead++
 		}
@@ -632,18 +754,18 @@ func (cs *controllerSet) runSet(t aOID) aStep {
 	if t.Kind == 2 {
 		c = cs.cset
 	}
-	cs.s.ResetPass()
+	cs.w.ResetPass()
 	var pre *aSet
-	if m := cs.s.RawGet(key); m != nil {
+	if m := cs.w.mg.RawGet(key); m != nil {
 		if a, err := abstractSet(m); err == nil {
 			pre = &a
 		}
 	}
 	res, err := c.Reconcile(context.Background(), ctrl.Request{NamespacedName: types.NamespacedName{Namespace: key.Namespace, Name: key.Name}})
 	st := aStep{Actor: "set", Target: t, PreSet: pre}
-	st.Res, st.ErrMsg = passResult(cs.s, res, err)
-	st.Events = setEventsFromLog(cs.s, cs.s.Log, key)
-	st.NextRV, st.NextUID = cs.s.Counters()
+	st.Res, st.ErrMsg = passResult(cs.w.sh.log, res, err)
+	st.Events = setEventsFromLog(cs.w.mg.Store, cs.w.sh.log, key)
+	st.NextRV, st.NextUID = cs.w.Counters()
 	return st
 }
 
@@ -653,13 +775,13 @@ func (cs *controllerSet) runPhase(t aOID) aStep {
 	if t.Kind == 4 {
 		c = cs.cphase
 	}
-	cs.s.ResetPass()
-	pre := optOSP(cs.s.RawGet(key))
+	cs.w.ResetPass()
+	pre := optOSP(cs.w.mg.RawGet(key))
 	res, err := c.Reconcile(context.Background(), ctrl.Request{NamespacedName: types.NamespacedName{Namespace: key.Namespace, Name: key.Name}})
 	st := aStep{Actor: "phase", Target: t, PrePhase: pre}
-	st.Res, st.ErrMsg = passResult(cs.s, res, err)
-	st.Events = phaseStepEvents(cs.s.Log, key)
-	st.NextRV, st.NextUID = cs.s.Counters()
+	st.Res, st.ErrMsg = passResult(cs.w.sh.log, res, err)
+	st.Events = phaseStepEvents(cs.w.sh.log, key)
+	st.NextRV, st.NextUID = cs.w.Counters()
 	return st
 }
 
@@ -696,6 +818,8 @@ type delegationScenario struct {
 	Kubelet  bool     `json:"kubelet"` // Widgets without status become Available after every pass
 	Stages   []aStage `json:"stages"`
 	Twin     bool     `json:"twin"`
+	// OneCluster: run the multi-cluster constructors against a single recording server (management = target)
+	OneCluster bool `json:"one_cluster,omitempty"`
 }
 
 type delegationRun struct {
@@ -714,32 +838,94 @@ type delegationObs struct {
 	L *delegationRun `json:"l,omitempty"`
 }
 
-func loadWorldX(s *Store, scheme *runtime.Scheme, sc *delegationScenario) error {
+// delegatedKeys: the member keys listed by a delegated phase of an ObjectSet of the scenario or by a phase object.
+func delegatedKeys(sc *delegationScenario) map[aKey]bool {
+	out := map[aKey]bool{}
+	add := func(ons int, objs []aPObj) {
+		for _, o := range objs {
+			ns := o.NS
+			if ns == 0 {
+				ns = ons
+			}
+			out[aKey{o.GK, ns, o.Name}] = true
+		}
+	}
+	for _, a := range sc.Sets {
+		for _, ph := range a.Phases {
+			if ph.Class {
+				add(a.NS, ph.Objects)
+			}
+		}
+	}
+	for _, p := range sc.Phases {
+		add(p.NS, p.Objects)
+	}
+	return out
+}
+
+func loadWorldX(w *world2, scheme *runtime.Scheme, sc *delegationScenario) error {
+	dk := delegatedKeys(sc)
 	for _, o := range sc.Store {
-		s.RawPut(denormRefs(o.concrete()), false)
+		w.memberStore(aKey{o.GK, o.NS, o.Name}, dk).RawPut(denormRefs(o.concrete()), false)
 	}
 	for _, a := range sc.Sets {
 		m, err := a.concrete(scheme)
 		if err != nil {
 			return err
 		}
-		s.RawPut(m, false)
+		w.mg.RawPut(m, false)
 	}
 	for _, p := range sc.Phases {
 		m, err := p.concrete()
 		if err != nil {
 			return err
 		}
-		s.RawPut(m, false)
+		w.mg.RawPut(m, false)
 	}
-	putNamespaces(s, sc.NSs)
-	s.SetCounters(sc.NextRV, sc.NextUID)
+	putNamespaces(w.mg.Store, sc.NSs)
+	w.sh.rv, w.sh.uid = sc.NextRV, sc.NextUID
 	return nil
 }
 
-func stateSig(s *Store) string {
-	rv, uid := s.Counters()
-	return fmt.Sprint(rv, uid, len(s.RawKeys()))
+func stateSig(w *world2) string {
+	n := 0
+	for _, s := range w.stores() {
+		n += len(s.RawKeys())
+	}
+	return fmt.Sprint(w.sh.rv, w.sh.uid, n)
+}
+
+func sortObjs(out []aObj) {
+	sort.Slice(out, func(i, j int) bool {
+		a, b := out[i], out[j]
+		if a.GK != b.GK {
+			return a.GK < b.GK
+		}
+		if a.NS != b.NS {
+			return a.NS < b.NS
+		}
+		return a.Name < b.Name
+	})
+}
+
+// abstractStoreW: the member objects of both clusters as one store. A key present on both clusters (possible only
+// for a key that one revision handles in-process and another one delegates in a two-cluster run, which the
+// scenarios avoid) is reported with name -1, i.e. outside the model.
+func abstractStoreW(w *world2) []aObj {
+	out := []aObj{}
+	seen := map[aKey]bool{}
+	for _, s := range w.stores() {
+		for _, o := range abstractStoreX(s) {
+			k := aKey{o.GK, o.NS, o.Name}
+			if seen[k] {
+				o.Name = -1
+			}
+			seen[k] = true
+			out = append(out, o)
+		}
+	}
+	sortObjs(out)
+	return out
 }
 
 // kubelet: the controller of the Widgets. Every Widget without an Available condition, or whose
@@ -747,7 +933,16 @@ func stateSig(s *Store) string {
 // unchanged, like the scripted third party of the other modes). A Widget with a condition and no
 // observedGeneration is left alone. The rule looks at the current object only, so its fixpoint does not depend
 // on when it runs.
-func kubelet(s *Store) []aObj {
+func kubelet(w *world2) []aObj {
+	out := []aObj{}
+	for _, s := range w.stores() {
+		out = append(out, kubeletOn(s)...)
+	}
+	sortObjs(out)
+	return out
+}
+
+func kubeletOn(s *Store) []aObj {
 	out := []aObj{}
 	for _, k := range s.RawKeys() {
 		if k.Kind != "Widget" {
@@ -771,7 +966,10 @@ func kubelet(s *Store) []aObj {
 	return out
 }
 
-func applySetOp(s *Store, op aSetOp) (aSet, bool, error) {
+func applySetOp(w *world2, op aSetOp) (aSet, bool, error) {
+	s := w.mg.Store
+	s.SetCounters(w.sh.rv, w.sh.uid)
+	defer func() { w.sh.rv, w.sh.uid = s.Counters() }()
 	key := setKey(op.Target)
 	m := s.RawGet(key)
 	if m == nil {
@@ -804,10 +1002,11 @@ func applySetOp(s *Store, op aSetOp) (aSet, bool, error) {
 
 // gcPhases: a third party deletes every phase object controlled by the ObjectSet (without going through the
 // phase controller) and the garbage collector removes the member objects those phase objects controlled.
-func gcPhases(s *Store, t aOID) ([]aOID, []aKey) {
+func gcPhases(w *world2, t aOID) ([]aOID, []aKey) {
 	pg, kg := []aOID{}, []aKey{}
 	uids := map[string]bool{}
 	setUID := "u" + strconv.Itoa(t.UID)
+	s := w.mg.Store
 	for _, k := range s.RawKeys() {
 		if !isPhaseKey(k) {
 			continue
@@ -829,6 +1028,7 @@ func gcPhases(s *Store, t aOID) ([]aOID, []aKey) {
 		}
 		s.RawDelete(k)
 	}
+	// the garbage collector of the cluster the phase objects live on (owner references do not reach across clusters)
 	for _, k := range s.RawKeys() {
 		m := s.RawGet(k)
 		u := &unstructured.Unstructured{Object: m}
@@ -846,9 +1046,9 @@ func gcPhases(s *Store, t aOID) ([]aOID, []aKey) {
 	return pg, kg
 }
 
-func livePhases(s *Store) []aOID {
+func livePhases(w *world2) []aOID {
 	out := []aOID{}
-	for _, p := range abstractPhases(s) {
+	for _, p := range abstractPhases(w.mg.Store) {
 		out = append(out, p.aOID)
 	}
 	return out
@@ -856,7 +1056,7 @@ func livePhases(s *Store) []aOID {
 
 func runDelegation(sc *delegationScenario, local bool) (*delegationRun, error) {
 	scheme := newScheme()
-	s := NewStore(scheme, newMapper())
+	s := newWorld2(scheme, sc.Strategy == "annot" && !sc.OneCluster)
 	world := *sc
 	if local {
 		world.Sets = nil
@@ -981,10 +1181,10 @@ func runDelegation(sc *delegationScenario, local bool) (*delegationRun, error) {
 		}
 		run.Quiet = run.Quiet && quiet
 	}
-	run.Post = abstractStoreX(s)
-	run.Sets = abstractSets(s)
-	run.Phases = abstractPhases(s)
-	run.NSs = abstractNamespaces(s)
+	run.Post = abstractStoreW(s)
+	run.Sets = abstractSets(s.mg.Store)
+	run.Phases = abstractPhases(s.mg.Store)
+	run.NSs = abstractNamespaces(s.mg.Store)
 	run.NextRV, run.NextUID = s.Counters()
 	return run, nil
 }
